@@ -7,18 +7,18 @@ import (
 
 // ChunkEv is the abstract record of one LZMA2 chunk.
 type ChunkEv struct {
-	Off   int    `json:"off"`  // offset of the control byte in the LZMA2 stream
-	Ctrl  int    `json:"ctrl"` // control byte
-	Kind  string `json:"k"`    // EOS UD U L LR LRN LRND BAD
-	U     int    `json:"u"`    // uncompressed size (real)
-	C     int    `json:"c"`    // compressed size (real; raw chunks: = U)
-	LC    int    `json:"lc"`
-	LP    int    `json:"lp"`
-	PB    int    `json:"pb"`
-	NOps  int    `json:"nops"`
-	MaxD  int64  `json:"maxd"`   // largest distance used in this chunk
-	Over  int64  `json:"over"`   // max(distance - bytes available) ; <= 0 when legal
-	Start int64  `json:"start"`  // bytes since last dict reset before the chunk
+	Off   int       `json:"off"`  // offset of the control byte in the LZMA2 stream
+	Ctrl  int       `json:"ctrl"` // control byte
+	Kind  string    `json:"k"`    // EOS UD U L LR LRN LRND BAD
+	U     int       `json:"u"`    // uncompressed size (real)
+	C     int       `json:"c"`    // compressed size (real; raw chunks: = U)
+	LC    int       `json:"lc"`
+	LP    int       `json:"lp"`
+	PB    int       `json:"pb"`
+	NOps  int       `json:"nops"`
+	MaxD  int64     `json:"maxd"`  // largest distance used in this chunk
+	Over  int64     `json:"over"`  // max(distance - bytes available) ; <= 0 when legal
+	Start int64     `json:"start"` // bytes since last dict reset before the chunk
 	Ops   []OpEvent `json:"-"`
 }
 
@@ -57,13 +57,13 @@ type L2Result struct {
 
 // Errors of the chunk layer.
 var (
-	ErrChunkCtrl   = errors.New("ref: invalid LZMA2 control byte")
-	ErrNeedDict    = errors.New("ref: first chunk must reset the dictionary")
-	ErrNeedProps   = errors.New("ref: LZMA chunk without properties after dictionary reset")
-	ErrLcLp        = errors.New("ref: lc+lp > 4 in LZMA2")
-	ErrProps       = errors.New("ref: invalid properties byte")
-	ErrChunkSize   = errors.New("ref: chunk data does not match its declared sizes")
-	ErrRcTail      = errors.New("ref: range coder not finished at end of chunk/stream")
+	ErrChunkCtrl = errors.New("ref: invalid LZMA2 control byte")
+	ErrNeedDict  = errors.New("ref: first chunk must reset the dictionary")
+	ErrNeedProps = errors.New("ref: LZMA chunk without properties after dictionary reset")
+	ErrLcLp      = errors.New("ref: lc+lp > 4 in LZMA2")
+	ErrProps     = errors.New("ref: invalid properties byte")
+	ErrChunkSize = errors.New("ref: chunk data does not match its declared sizes")
+	ErrRcTail    = errors.New("ref: range coder not finished at end of chunk/stream")
 )
 
 // L2Opts tunes the LZMA2 reference decoder.
